@@ -624,6 +624,28 @@ func main() {
 		}
 		fmt.Fprintf(&b, "(%s, %s, %s, %d)", lstr(c.unit), lstr(c.field), lstr(c.method), c.line)
 	}
+	b.WriteString("]\n\n/-- the top-level statements of the exported CloseConnToCollector, as source text -/\n")
+	b.WriteString("def closeBody : List String := [")
+	{
+		var stmts []string
+		for _, f := range files {
+			for _, d := range f.Decls {
+				fd, ok := d.(*ast.FuncDecl)
+				if !ok || fd.Body == nil || fd.Name.Name != "CloseConnToCollector" {
+					continue
+				}
+				if t, _ := recvTypeName(fd); t != typeName {
+					continue
+				}
+				for _, st := range fd.Body.List {
+					var sb bytes.Buffer
+					printer.Fprint(&sb, fset, st)
+					stmts = append(stmts, lstr(strings.Join(strings.Fields(sb.String()), " ")))
+				}
+			}
+		}
+		b.WriteString(strings.Join(stmts, ", "))
+	}
 	b.WriteString("]\n\n/-- sync/atomic functions applied to the address of a field: (unit, field, function, line) -/\n")
 	b.WriteString("def atomicOps : List (String × String × String × Nat) := [")
 	for i, c := range atomicOps {
